@@ -20,6 +20,10 @@ from pyvc.models import Model
 from pyvc.tensor import T
 
 
+REDUCE_UF = [False]
+RED = z3.Function("batch_reduction", z3.RealSort(), z3.RealSort())
+
+
 def recept(x):
     if x is None:
         return None
@@ -31,6 +35,7 @@ class Env:
     def __init__(self, c, monitor_specs, state_fields, delayed_conn=False, extra_cell=None):
         """monitor_specs: name -> dict(peek=T, view=T|None, read2=T|None, select2=T|None)"""
         self.c = c
+        self.monitor_specs = monitor_specs
         self.calls = []
         self.conn = Obj(None, "connection")
         self.conn.fields.update(
@@ -48,7 +53,21 @@ class Env:
         if extra_cell:
             self.cell.fields.update(extra_cell)
         self.state = Obj(None, "state")
-        self.state.fields.update(batchreduce=Model(lambda it, x, dim=0: x, "batchreduce(identity)"), **state_fields)
+        self.reductions = []
+
+        def batchreduce(it, x, dim=0, **kw):
+            """the configured batch reduction.  Default: applied to ONE arbitrary sample's term (linear / mean), i.e.
+            the identity.  In REDUCE_UF mode (C11) it is the uninterpreted functional RED over the batch, so that the
+            dependence of the update parts on per-sample data can be read off the resulting terms."""
+            self.reductions.append((x, dim))
+            if REDUCE_UF[0] and isinstance(x, T) and x.tlen is None:
+                return T(RED(tz.coerce(x.f, "float")), "float", None, None, x.eshape)
+            return x
+
+        self.state.fields.update(batchreduce=Model(batchreduce, "batchreduce(identity)"), **state_fields)
+        from pyvc.sym import cur as _cur
+
+        _cur().trainer_env = self
         self.monitors = {}
         for name, sp in monitor_specs.items():
             m = Obj(None, f"monitor[{name}]")
